@@ -195,6 +195,27 @@ def _alias_chain_foreign(unit: Unit) -> bool:
     return False
 
 
+def shape_n13(unit: Unit) -> bool:
+    """A message has a field named like an import name of its file and, later in field-number order, a field whose
+    type is written through that import: the Python class body has bound the name to the field's default by then."""
+    for f in unit.files:
+        names = {i.name for i in f.imports()}
+        if not names:
+            continue
+        for m in iter_messages(f):
+            flds = m.sorted_fields()
+            for k, fl in enumerate(flds):
+                if fl.name not in names:
+                    continue
+                for g in flds[k + 1 :]:
+                    t = g.type
+                    while isinstance(t, TArray):
+                        t = t.elem
+                    if isinstance(t, TRef) and t.text_.split(".")[0] == fl.name and "." in t.text_:
+                        return True
+    return False
+
+
 def shape_empty_enum(unit: Unit) -> bool:
     return any(not e.members for f in unit.files for e in iter_enums(f))
 
@@ -683,6 +704,9 @@ def _check_py(unit: Unit, cu: gen.Compiled, pydir: str, stats: Stats, d7: bool, 
                 if (d7 or n3) and isinstance(e, (NameError, AttributeError)):
                     known("D7" if d7 else "N3", "unqualified/misqualified cross-file type name: " + txt[:160])
                     continue
+                if isinstance(e, AttributeError) and "object has no attribute" in txt and shape_n13(unit):
+                    known("N13", "field named like an import name hides the module in the class body: " + txt[:160])
+                    continue
                 if ee and isinstance(e, (NameError, AttributeError, IndexError)):
                     known("N2", "import chain with empty enum: " + txt[:120])
                     continue
@@ -777,6 +801,11 @@ def probe_units() -> List[Tuple[str, Case]]:
     e = Enum("Empty", 3, [])
     out.append(("D3", Case(_unit(File("pa", "pa", [e, Message("Holder", False, [Field("e", TRef("Empty", e), 1)])])), ["empty_enum"])))
     out.append(("N2", Case(_unit(File("pb", "pb", [Enum("Hollow", 3, []), Message("Other", False, [Field("alt", B("bool"), 1)])])), ["empty_enum"])))
+    # N13: a field named like the import name, followed (in number order) by a field typed through that import
+    lib = File("libn", "libn", [Message("Token", False, [Field("ok", B("bool"), 1)])])
+    tok = lib.items[0]
+    usr = File("usern", "usern", [Import(lib, None), Message("Holder", False, [Field("libn", B("uint", 3), 1), Field("token", TRef("libn.Token", tok), 2)])])
+    out.append(("N13", Case(_unit(lib, usr), ["field_named_like_import"])))
     # D7: nested type of an imported file
     inner = Message("Inner", False, [Field("ok", B("bool"), 1)])
     fa = File("pc", "pc", [Message("Point", False, [inner, Field("inn", TRef("Inner", inner), 1)])])
